@@ -64,6 +64,7 @@ type scheduler struct {
 	maxPicks int
 	trace    []string
 	quiesced bool
+	preemptions int
 }
 
 type killed struct{}
@@ -149,6 +150,16 @@ func (s *scheduler) loop() {
 			// deadlock: live goroutines, none enabled
 			panic(pathEnd{kind: "deadlock", msg: "all goroutines are blocked: " + s.describeBlocked()})
 		}
+		// pre-emption bounding (CHESS): switching away from a goroutine that could continue is a
+		// pre-emption; once the bound PB is used up the running goroutine continues while it can
+		if pb, ok := s.i.run.ex.cfg.Params["PB"]; ok && pb >= 0 && s.cur != nil && s.preemptions >= pb {
+			for _, g := range en {
+				if g == s.cur {
+					en = []*goroutine{g}
+					break
+				}
+			}
+		}
 		g := en[0]
 		if len(en) > 1 {
 			s.npicks++
@@ -164,6 +175,14 @@ func (s *scheduler) loop() {
 				panic(pathEnd{kind: "assume-false"})
 			}
 			g = en[k]
+		}
+		if s.cur != nil && g != s.cur && !s.cur.done {
+			for _, e := range en {
+				if e == s.cur {
+					s.preemptions++
+					break
+				}
+			}
 		}
 		s.cur = g
 		g.waitFor = nil
@@ -216,7 +235,8 @@ func (s *scheduler) spawn(fr *frame, fn value, args []value) {
 	g := &goroutine{id: len(s.gs), resume: make(chan bool)}
 	s.gs = append(s.gs, g)
 	s.start(g, fn, args)
-	s.park(fr, "go", nil)
+	// no pre-emption here: a goroutine that exists but has not been scheduled yet is
+	// indistinguishable from one that has not been spawned yet
 }
 
 // ---- mutex ---------------------------------------------------------------
@@ -242,7 +262,21 @@ func (s *scheduler) unlock(fr *frame, m *value) {
 		panic(targetPanic{iface{s.i.runtimeErrorString, "sync: unlock of unlocked mutex"}})
 	}
 	st.locked = false
-	s.park(fr, "Unlock", nil)
+	// releasing a lock nobody waits for enables no goroutine: the next pre-emption point is this
+	// goroutine's next visible operation (local steps in between are independent of the others)
+	if s.someoneWaits() {
+		s.park(fr, "Unlock", nil)
+	}
+}
+
+// someoneWaits: some other goroutine is currently blocked (its enabledness may have just changed).
+func (s *scheduler) someoneWaits() bool {
+	for _, g := range s.gs {
+		if !g.done && g != s.cur && g.waitFor != nil {
+			return true
+		}
+	}
+	return false
 }
 
 func (s *scheduler) rlock(fr *frame, m *value) {
@@ -296,11 +330,13 @@ func (s *scheduler) condWait(fr *frame, c *value) {
 }
 
 func (s *scheduler) condSignal(fr *frame, c *value, all bool) {
+	woke := false
 	if cst := s.conds[c]; cst != nil {
 		for len(cst.waiters) > 0 {
 			w := cst.waiters[0]
 			cst.waiters = cst.waiters[1:]
 			w.woken = true
+			woke = true
 			if !all {
 				break
 			}
@@ -310,7 +346,9 @@ func (s *scheduler) condSignal(fr *frame, c *value, all bool) {
 	if all {
 		name = "Cond.Broadcast"
 	}
-	s.park(fr, name, nil)
+	if woke {
+		s.park(fr, name, nil)
+	}
 }
 
 // ---- sync.WaitGroup --------------------------------------------------------
@@ -339,167 +377,202 @@ func (s *scheduler) wgWait(fr *frame, w *value) {
 }
 
 // ---- channels --------------------------------------------------------------
+//
+// Every channel operation (plain send/receive or a select) goes through chanOps:
+// a pre-emption point, then the ready cases are computed; a case is ready when the
+// buffer allows it, the channel is closed, or another goroutine is parked with a
+// matching offer (rendezvous). A blocked operation registers one offer per case and
+// is completed by its partner.
 
-func (s *scheduler) send(fr *frame, c *gchan, v value) {
-	if c == nil {
-		s.park(fr, "send on nil channel", func() bool { return false })
-	}
-	s.park(fr, "chan send", nil) // pre-emption point before the operation
-	if c.closed {
-		panic(targetPanic{iface{s.i.runtimeErrorString, "send on closed channel"}})
-	}
-	if len(c.buf) < c.cap {
-		c.buf = append(c.buf, v)
-		return
-	}
-	w := &waiter{g: fr.g, val: v}
-	c.sendq = append(c.sendq, w)
-	s.park(fr, fmt.Sprintf("chan send (blocked, chan %d)", c.id), func() bool { return w.done || c.closed })
-	if !w.done {
-		// woken by close
-		for k, x := range c.sendq {
-			if x == w {
-				c.sendq = append(c.sendq[:k], c.sendq[k+1:]...)
-				break
-			}
-		}
-		panic(targetPanic{iface{s.i.runtimeErrorString, "send on closed channel"}})
-	}
+type chanCase struct {
+	c    *gchan
+	send bool
+	val  value
 }
 
-// tryRecv performs a receive if it can complete now.
-func (c *gchan) tryRecv() (v value, ok bool, ready bool) {
+type opState struct {
+	done bool
+	idx  int
+	val  value
+	ok   bool
+}
+
+type offer struct {
+	g    *goroutine
+	send bool
+	val  value
+	st   *opState
+	idx  int
+}
+
+func (c *gchan) pendingOffer(send bool, notG *goroutine) *offer {
+	for _, o := range c.offers {
+		if o.send == send && !o.st.done && o.g != notG {
+			return o
+		}
+	}
+	return nil
+}
+
+func (s *scheduler) caseReady(g *goroutine, cs chanCase) bool {
+	c := cs.c
+	if c == nil {
+		return false
+	}
+	if c.closed {
+		return true
+	}
+	if cs.send {
+		return len(c.buf) < c.cap || c.pendingOffer(false, g) != nil
+	}
+	return len(c.buf) > 0 || c.pendingOffer(true, g) != nil
+}
+
+// complete performs case cs (known to be ready) for goroutine g.
+func (s *scheduler) complete(g *goroutine, cs chanCase) (v value, ok bool) {
+	c := cs.c
+	if cs.send {
+		if c.closed {
+			panic(targetPanic{iface{s.i.runtimeErrorString, "send on closed channel"}})
+		}
+		if o := c.pendingOffer(false, g); o != nil && len(c.buf) == 0 {
+			o.st.done, o.st.idx, o.st.val, o.st.ok = true, o.idx, cs.val, true
+			return nil, false
+		}
+		c.buf = append(c.buf, cs.val)
+		return nil, false
+	}
 	if len(c.buf) > 0 {
 		v = c.buf[0]
 		c.buf = c.buf[1:]
-		if len(c.sendq) > 0 {
-			w := c.sendq[0]
-			c.sendq = c.sendq[1:]
-			c.buf = append(c.buf, w.val)
-			w.done = true
+		if o := c.pendingOffer(true, g); o != nil {
+			c.buf = append(c.buf, o.val)
+			o.st.done, o.st.idx = true, o.idx
 		}
-		return v, true, true
+		return v, true
 	}
-	if len(c.sendq) > 0 {
-		w := c.sendq[0]
-		c.sendq = c.sendq[1:]
-		w.done = true
-		return w.val, true, true
+	if o := c.pendingOffer(true, g); o != nil {
+		o.st.done, o.st.idx = true, o.idx
+		return o.val, true
 	}
-	if c.closed {
-		return nil, false, true
-	}
-	return nil, false, false
+	// closed and drained
+	return nil, false
 }
 
-func (c *gchan) canRecv() bool { return len(c.buf) > 0 || len(c.sendq) > 0 || c.closed }
-
-func (s *scheduler) recv(fr *frame, c *gchan) (value, bool) {
-	if c == nil {
-		s.park(fr, "receive on nil channel", func() bool { return false })
-	}
-	c.recvWaiting++
-	s.park(fr, fmt.Sprintf("chan recv (chan %d)", c.id), c.canRecv)
-	c.recvWaiting--
-	v, ok, ready := c.tryRecv()
-	if !ready {
-		panic("scheduler: receive resumed but not ready")
-	}
-	return v, ok
-}
-
-func (s *scheduler) closeChan(fr *frame, c *gchan) {
-	c.closed = true
-	s.park(fr, "close", nil)
-}
-
-func (s *scheduler) selectStmt(fr *frame, instr *ssa.Select) value {
-	type caseInfo struct {
-		c    *gchan
-		send bool
-		val  value
-	}
-	var cases []caseInfo
-	for _, st := range instr.States {
-		ci := caseInfo{c: fr.get(st.Chan).(*gchan), send: st.Dir == types.SendOnly}
-		if ci.send {
-			ci.val = fr.get(st.Send)
-		}
-		cases = append(cases, ci)
-	}
-	ready := func() []int {
+func (s *scheduler) chanOps(fr *frame, cases []chanCase, blocking bool, why string) (idx int, v value, ok bool) {
+	g := fr.g
+	s.park(fr, why, nil) // pre-emption point before the operation
+	readyIdx := func() []int {
 		var r []int
-		for k, ci := range cases {
-			if ci.c == nil {
-				continue
-			}
-			if ci.send {
-				if ci.c.closed || len(ci.c.buf) < ci.c.cap || ci.c.recvWaiting > 0 {
-					r = append(r, k)
-				}
-			} else if ci.c.canRecv() {
+		for k, cs := range cases {
+			if s.caseReady(g, cs) {
 				r = append(r, k)
 			}
 		}
 		return r
 	}
-	mkResult := func(chosen int, v value, ok bool) value {
-		r := tuple{chosen, ok}
-		for k, st := range instr.States {
-			if st.Dir == types.RecvOnly {
-				if k == chosen && ok {
-					r = append(r, v)
-				} else {
-					r = append(r, zero(st.Chan.Type().Underlying().(*types.Chan).Elem()))
+	rd := readyIdx()
+	if len(rd) == 0 {
+		if !blocking {
+			return -1, nil, false
+		}
+		st := &opState{}
+		var mine []*offer
+		for k, cs := range cases {
+			if cs.c == nil {
+				continue
+			}
+			o := &offer{g: g, send: cs.send, val: cs.val, st: st, idx: k}
+			cs.c.offers = append(cs.c.offers, o)
+			mine = append(mine, o)
+		}
+		anyClosed := func() bool {
+			for _, cs := range cases {
+				if cs.c != nil && cs.c.closed {
+					return true
 				}
 			}
+			return false
 		}
-		return r
-	}
-	s.park(fr, "select", nil)
-	if !instr.Blocking {
-		rd := ready()
+		s.park(fr, why+" (blocked)", func() bool { return st.done || anyClosed() || len(readyIdx()) > 0 })
+		// withdraw the offers
+		for _, cs := range cases {
+			if cs.c == nil {
+				continue
+			}
+			kept := cs.c.offers[:0]
+			for _, o := range cs.c.offers {
+				if o.st != st {
+					kept = append(kept, o)
+				}
+			}
+			cs.c.offers = kept
+		}
+		_ = mine
+		if st.done {
+			return st.idx, st.val, st.ok
+		}
+		rd = readyIdx()
 		if len(rd) == 0 {
-			return mkResult(-1, nil, false)
+			panic("scheduler: channel operation resumed but nothing is ready")
 		}
 	}
-	// a receiver blocked in select makes unbuffered senders able to proceed
-	for _, ci := range cases {
-		if ci.c != nil && !ci.send {
-			ci.c.recvWaiting++
-		}
-	}
-	s.park(fr, "select (blocked)", func() bool { return len(ready()) > 0 })
-	for _, ci := range cases {
-		if ci.c != nil && !ci.send {
-			ci.c.recvWaiting--
-		}
-	}
-	rd := ready()
 	k := rd[0]
 	if len(rd) > 1 {
 		r := s.i.run
 		ts := s.i.ts
-		v := r.newVar(64, "select", fmt.Sprintf("pick among %d ready cases", len(rd)))
-		r.addPC(ts.Cmp(opULt, v, ts.Const(64, uint64(len(rd)))))
-		k = rd[r.concretize(v)]
+		pv := r.newVar(64, "select", fmt.Sprintf("pick among %d ready cases", len(rd)))
+		r.addPC(ts.Cmp(opULt, pv, ts.Const(64, uint64(len(rd)))))
+		k = rd[r.concretize(pv)]
 	}
-	ci := cases[k]
-	if ci.send {
-		if ci.c.closed {
-			panic(targetPanic{iface{s.i.runtimeErrorString, "send on closed channel"}})
-		}
-		if len(ci.c.buf) < ci.c.cap {
-			ci.c.buf = append(ci.c.buf, ci.val)
-		} else {
-			w := &waiter{g: fr.g, val: ci.val}
-			ci.c.sendq = append(ci.c.sendq, w)
-			s.park(fr, "select send (handoff)", func() bool { return w.done || ci.c.closed })
-		}
-		return mkResult(k, nil, false)
+	v, ok = s.complete(g, cases[k])
+	return k, v, ok
+}
+
+func (s *scheduler) send(fr *frame, c *gchan, v value) {
+	if c == nil {
+		s.park(fr, "send on nil channel", func() bool { return false })
 	}
-	v, ok, _ := ci.c.tryRecv()
-	return mkResult(k, v, ok)
+	s.chanOps(fr, []chanCase{{c: c, send: true, val: v}}, true, fmt.Sprintf("chan send (chan %d)", c.id))
+}
+
+func (s *scheduler) recv(fr *frame, c *gchan) (value, bool) {
+	if c == nil {
+		s.park(fr, "receive on nil channel", func() bool { return false })
+	}
+	_, v, ok := s.chanOps(fr, []chanCase{{c: c}}, true, fmt.Sprintf("chan recv (chan %d)", c.id))
+	return v, ok
+}
+
+func (s *scheduler) closeChan(fr *frame, c *gchan) {
+	s.park(fr, "close", nil)
+	if c.closed {
+		panic(targetPanic{iface{s.i.runtimeErrorString, "close of closed channel"}})
+	}
+	c.closed = true
+}
+
+func (s *scheduler) selectStmt(fr *frame, instr *ssa.Select) value {
+	var cases []chanCase
+	for _, st := range instr.States {
+		cs := chanCase{c: fr.get(st.Chan).(*gchan), send: st.Dir == types.SendOnly}
+		if cs.send {
+			cs.val = fr.get(st.Send)
+		}
+		cases = append(cases, cs)
+	}
+	chosen, v, ok := s.chanOps(fr, cases, instr.Blocking, "select")
+	r := tuple{chosen, ok}
+	for k, st := range instr.States {
+		if st.Dir == types.RecvOnly {
+			if k == chosen && ok {
+				r = append(r, v)
+			} else {
+				r = append(r, zero(st.Chan.Type().Underlying().(*types.Chan).Elem()))
+			}
+		}
+	}
+	return r
 }
 
 // quiesce blocks the calling (harness) goroutine until no other goroutine is enabled;
